@@ -3,5 +3,10 @@
    the extracted inductives; no Extract Constant. *)
 Require Extraction.
 From Coq Require Import ExtrOcamlBasic.
-From Adept Require Import GapList.
-Extraction "model.ml" GapList.init GapList.register1 GapList.registerN GapList.unregisterN GapList.new_recording GapList.step GapList.run.
+From Adept Require Import Scalar GapList Tape Jacobian.
+Extraction "model.ml"
+  GapList.init GapList.register1 GapList.registerN GapList.unregisterN GapList.new_recording GapList.step GapList.run
+  Scalar.mkOps
+  Tape.fwd_sweep Tape.rev_sweep Tape.unit_vec Tape.zero_vec Tape.upd Tape.drop_zeros Tape.dot
+  Jacobian.jac_fwd_serial Jacobian.jac_rev_serial Jacobian.jac_auto Jacobian.jac_fwd_omp Jacobian.jac_rev_omp
+  Jacobian.apply_writes Jacobian.omp_blocks Jacobian.J_fwd Jacobian.J_rev.
